@@ -130,6 +130,15 @@ def falsify(ctx):
             cmps = []
             job.update({"maxLit": rng.choice([10, 16, 20]), "fw": rng.choice(["base", "dataclasses", "pydantic", "sqlmodel"])})
             job.pop("renderFirst", None)
+        if i >= len(focus) and i % 15 == 2:
+            # unicode conversion off, attrs / dataclasses: an optional nested-model field written before a required one —
+            # fields with defaults must still follow the required ones in the emitted class
+            inputs = [("Root", [{"opt": {"a": 1}, "req": {"b": 2}, "also": {"c": 1}, "n": 1}, {"req": {"b": 3}, "also": None, "n": 2}])]
+            cmps = []
+            job.update({"fw": rng.choice(["attrs", "dataclasses"]), "convertUnicode": False, "omitDefaults": False,
+                        "layout": rng.choice(["flat", "nested"])})
+            job.pop("renderFirst", None)
+            job.pop("structureReuse", None)
         reg_i = registry
         if i >= len(focus) and i % 15 == 4:
             # classes whose names would coincide with the string-type names the module imports once date/time types are
